@@ -63,6 +63,7 @@ let parse_op (o : string) (impl_step : string) : z op =
   | "safeT" -> OSafeT (nat 1, zs f.(2))
   | "rollaxis" -> ORollAxis (nat 1, z_of_int (int_of_string f.(2)), z_of_int (int_of_string f.(3)), f.(4) = "1")
   | "apitranspose" -> OApiTranspose (nat 1, zs f.(2))
+  | "reshape" -> OReshape (nat 1, zs f.(2), (String.length impl_step >= 3 && String.sub impl_step 0 3 = "err"))
   | k -> (match Hashtbl.find_opt extra_ops k with
       | Some p -> p f impl_step
       | None -> failwith ("unknown op " ^ k))
